@@ -112,6 +112,25 @@ func loadEngine(repo string, contractPath string) (*Engine, error) {
 	}
 	e.cf = cf
 	pureDefs = cf.Pures
+	declared := map[string]bool{}
+	for _, st := range cf.Stable {
+		declared["F."+st] = true
+	}
+	stableComp = func(name string) bool {
+		if declared[name] {
+			return true
+		}
+		if e.initOnly[name] {
+			// only unexported leaf fields: exported fields can be written by client code
+			i := strings.LastIndex(name, ".")
+			f := strings.TrimSuffix(name[i+1:], "[]")
+			return f != "" && f[0] >= 'a' && f[0] <= 'z'
+		}
+		if strings.HasPrefix(name, "G.") && e.immGlobals[name[2:]] {
+			return true
+		}
+		return false
+	}
 	e.analyse()
 	return e, nil
 }
@@ -482,10 +501,23 @@ func (e *Engine) addStoreMod(ms *modSet, addr ssa.Value) {
 		ms.comps[c] = true
 		return
 	}
-	// memory
-	ms.comps["M"] = true
-	ms.comps["MS"] = true
+	// memory: pick the component by the pointee type
+	if el := ptrElem(addr.Type()); el != nil {
+		if _, _, ok := intInfo(el); ok {
+			// integer stores may go through unsafe byte pointers or into []int
+			ms.comps["M"] = true
+			ms.comps["MR"] = true
+			return
+		}
+		ms.comps[memComp(el)] = true
+		return
+	}
+	for _, k := range memAll {
+		ms.comps[k] = true
+	}
 }
+
+var memAll = []string{"M", "MS", "MR", "MB", "MP"}
 
 func (e *Engine) callMod(fn *ssa.Function, ms *modSet, call *ssa.CallCommon, edges *[]modEdge) {
 	if call.IsInvoke() {
@@ -496,8 +528,11 @@ func (e *Engine) callMod(fn *ssa.Function, ms *modSet, call *ssa.CallCommon, edg
 	case *ssa.Builtin:
 		switch c.Name() {
 		case "copy", "append":
-			ms.comps["M"] = true
-			ms.comps["MS"] = true
+			if st, ok := call.Args[0].Type().Underlying().(*types.Slice); ok {
+				ms.comps[memComp(st.Elem())] = true
+			} else {
+				ms.comps["M"] = true
+			}
 		case "delete":
 			ms.comps["MAP"] = true
 			ms.comps["MAPOK"] = true
@@ -546,7 +581,7 @@ func externEffect(f *ssa.Function) []string {
 		name == "golang.org/x/sys/unix.RawSyscall", name == "golang.org/x/sys/unix.Syscall":
 		return []string{"M"}
 	case name == "sort.Sort":
-		return []string{"M", "MS"}
+		return memAll
 	case name == "(*sync.Once).Do", name == "time.AfterFunc", name == "github.com/bytedance/gopkg/util/gopool.Go":
 		return []string{"*"}
 	}
